@@ -1,32 +1,110 @@
-# C05 — register allocation: the kernels (lemmas) the pass's correctness rests on
+# C05 — register allocation preserves meaning: ONLY the kernels (lemmas) the pass's correctness rests on are decided here.
+# The whole-program statement of the property is outside (see EXPLANATION / OUTSIDE).
 UNITS = [
+    # K1 live spans (radefs_p.h is header-only; the vector growth comes from arenavector.cpp, the arena is a typed stand-in in the harness)
     Unit('spans', harness=['h_spans.cpp'], repo_units=['asmjit/support/arenavector.cpp']),
+    # K2 RAAssignment (header-only)
     Unit('assign', harness=['h_assign.cpp'], repo_units=[]),
     Unit('assign_x64', harness=['h_assign.cpp'], repo_units=[], defines=['C05_X64']),
+    # K3 stack allocator
     Unit('stack', harness=['h_stack.cpp'], repo_units=['asmjit/core/rastack.cpp', 'asmjit/support/arenavector.cpp']),
+    # K4 small helpers (header-only) and the local allocator's decision functions (ralocal.cpp; nothing else of it is reached)
     Unit('defs', harness=['h_defs.cpp'], repo_units=[]),
     Unit('decide', harness=['h_decide.cpp'], repo_units=['asmjit/core/ralocal.cpp']),
 ]
-HARNESSES = [
-    Harness('spans', 'h_spans_union_%d_%d_d%d' % (nx, ny, d), unwind=8, mem_gb=8, timeout=600,
-            bounds='x: %d spans, y: %d spans, all endpoints symbolic 32-bit' % (nx, ny))
-    for nx, ny, d in ((0, 0, 1), (0, 3, 0), (3, 0, 2), (1, 1, 0), (1, 3, 1), (3, 1, 2), (2, 2, 2), (2, 3, 0), (3, 2, 1), (3, 3, 0), (3, 3, 1), (3, 3, 2))
-] + [
-    Harness('spans', 'h_spans_union_loose_3_3', unwind=8, mem_gb=8, timeout=600, bounds=''),
-    Harness('spans', 'h_spans_union_loose_2_3', unwind=8, mem_gb=8, timeout=600, bounds=''),
-    Harness('spans', 'h_spans_intersects', unwind=8, mem_gb=8, timeout=600, bounds=''),
-    Harness('spans', 'h_spans_open_close', unwind=8, mem_gb=8, timeout=600, bounds=''),
-] + [
-    Harness('assign', 'h_assign_' + op, unwind=17, mem_gb=4, timeout=600, bounds='') for op in ('assign', 'unassign', 'reassign', 'swap', 'clean', 'dirty', 'copy', 'maps')
-] + [
-    Harness('assign_x64', 'h_assign_' + op + '_x64', unwind=70, mem_gb=6, timeout=1200, tiers=('thorough',), bounds='') for op in ('assign', 'unassign', 'reassign', 'swap', 'clean', 'dirty', 'copy', 'maps')
-] + [
-    Harness('stack', 'h_stack_' + nm, unwind=9, mem_gb=4, timeout=600, bounds='') for nm in ('frame_k1', 'frame_k2', 'frame_k3', 'frame_k4', 'adjust', 'new_slot', 'chain_k2', 'chain_k3')
-] + [
-    Harness('defs', 'h_defs_' + nm, unwind=6, mem_gb=2, timeout=300, bounds='') for nm in ('regcount', 'regmask', 'tied')
-] + [
-    Harness('decide', 'h_decide_' + nm, unwind=17, mem_gb=4, timeout=300, bounds='') for nm in ('assignment', 'reassignment', 'spill', 'spill_anyfreq', 'cost')
+
+Q, T = ('quick', 'thorough'), ('thorough',)
+B_SPAN = 'x: %d spans, y: %d spans, every endpoint symbolic over 32 bits (including 0 = kNaN and 0xFFFFFFFF = kInf); lists valid (a_i < b_i <= a_(i+1)); destination %s; the arena request may fail'
+DST = {0: 'empty (storage from the arena)', 1: 'holding 0..6 stale spans in own storage of capacity 6 (reused)', 2: 'holding 2 stale spans, capacity 2 (grows, old storage released)'}
+# measured (this machine, one core): 1_1 3 s; 2_2 56-84 s / 2.1 GB; 2_3 80 s / 2.0 GB; 3_3 95-115 s / 2.3 GB
+SPAN_CASES = [  # nx, ny, dst, tiers, mem
+    (0, 0, 1, Q, 1), (0, 3, 0, Q, 1), (3, 0, 2, Q, 1), (1, 1, 0, Q, 1), (1, 3, 1, Q, 2), (3, 1, 2, Q, 2),
+    (2, 2, 2, Q, 4), (2, 3, 0, Q, 4), (3, 2, 1, Q, 4), (3, 3, 0, Q, 5), (3, 3, 1, T, 5), (3, 3, 2, T, 5),
 ]
-EXPLANATION = 'wip'
-OUTSIDE = []
-ASSUMPTIONS = []
+B_ASSIGN = ('arbitrary consistent state of 2 groups x 8 physical registers and 6 work registers (group of each work register, location '
+            'none/0..7 injective per group, dirty flags: all symbolic); arguments symbolic within the ASMJIT_ASSERT preconditions of the operation')
+B_ASSIGN64 = B_ASSIGN.replace('2 groups x 8 physical registers and 6 work registers', 'the x86-64 register file (4 groups: 16 + 32 + 8 + 8 physical registers) and 8 work registers').replace('none/0..7', 'none/0..count-1')
+ASSIGN_OPS = {
+    'assign': 'assign(group, w, p, dirty): w unassigned, p free, group = group(w)',
+    'unassign': 'unassign(group, w, p): w in p',
+    'reassign': 'reassign(group, w, dst, src): w in src, dst free, dst != src',
+    'swap': 'swap(group, a, pa, b, pb): a in pa, b in pb, same group, a != b',
+    'clean': 'make_clean(group, w, p): w in p', 'dirty': 'make_dirty(group, w, p): w in p',
+    'copy': 'two arbitrary consistent states over the same work registers: equals; copy_from(assignment) / copy_from(both maps) / copy_from(phys map) + assign_work_ids_from_phys_ids; swap(RAAssignment&)',
+    'maps': 'PhysToWorkMap::unassign(group, p, index) followed by assign_work_ids_from_phys_ids; PhysToWorkMap::reset + WorkToPhysMap::reset',
+}
+B_SLOT = 'size 1..2^20, alignment 1,2,4,..,128, flags {register home, stack argument} x 2, use count 32 bits, stale weight/offset 32 bits - all symbolic per slot'
+
+HARNESSES = [
+    Harness('spans', 'h_spans_union_%d_%d_d%d' % (nx, ny, d), unwind=8, mem_gb=mem, timeout=900, tiers=tiers, bounds='non_overlapping_union_of: ' + B_SPAN % (nx, ny, DST[d]))
+    for nx, ny, d, tiers, mem in SPAN_CASES
+] + [
+    Harness('spans', 'h_spans_union_loose_2_3', unwind=8, mem_gb=4, timeout=900, tiers=Q, bounds='non_overlapping_union_of on 2 + 3 spans that may be empty (a_i <= b_i <= a_(i+1)): soundness direction only (accepted => no shared position, result sorted)'),
+    Harness('spans', 'h_spans_union_loose_3_3', unwind=8, mem_gb=4, timeout=900, tiers=T, bounds='as h_spans_union_loose_2_3 with 3 + 3 spans'),
+    Harness('spans', 'h_spans_intersects', unwind=8, mem_gb=4, timeout=900, bounds='intersects(): list sizes (0,2) (1,1) (1,3) (2,2) (3,2) (3,3), endpoints symbolic over 32 bits, both argument orders'),
+    Harness('spans', 'h_spans_open_close', unwind=8, mem_gb=1, timeout=300, bounds='open_at / close_at / is_open / width / RALiveSpan::is_valid,width from a valid list of 0..3 spans with or without spare capacity; start < end, start >= start of the last span (positions never run backwards); arena may fail'),
+] + [
+    Harness('assign', 'h_assign_' + op, unwind=17, mem_gb=2, timeout=600, bounds=what + '; ' + B_ASSIGN) for op, what in ASSIGN_OPS.items()
+] + [
+    # measured: 130-760 s, 2.1-3.5 GB each
+    Harness('assign_x64', 'h_assign_' + op + '_x64', unwind=70, mem_gb=8, timeout=3600, tiers=T, bounds=what + '; ' + B_ASSIGN64) for op, what in ASSIGN_OPS.items()
+] + [
+    # measured: k1 6 s, k2 25 s, k3 63 s, k4 123 s (0.2-0.7 GB)
+    Harness('stack', 'h_stack_frame_k%d' % k, unwind=9, mem_gb=2, timeout=900, bounds='calculate_stack_frame on a hand-built allocator with %d slots: %s; allocator alignment = maximum slot alignment' % (k, B_SLOT))
+    for k in (1, 2, 3, 4)
+] + [
+    Harness('stack', 'h_stack_adjust', unwind=9, mem_gb=1, timeout=300, bounds='adjust_slot_offsets on 0..4 slots, offsets 0..2^30, delta -2^30..2^30 (no signed overflow), flags symbolic'),
+    Harness('stack', 'h_stack_new_slot', unwind=9, mem_gb=1, timeout=300, bounds='new_slot from an allocator with 0, 2 or 3 slots (with and without spare vector capacity): base id 8 bits, size 32 bits, alignment 0..255, flags 16 bits; every arena request may fail'),
+    Harness('stack', 'h_stack_chain_k2', unwind=9, mem_gb=2, timeout=600, bounds='reset, 2 x new_slot (%s), calculate_stack_frame - through the real construction sequence' % B_SLOT),
+    Harness('stack', 'h_stack_chain_k3', unwind=9, mem_gb=2, timeout=600, bounds='as h_stack_chain_k2 with 3 slots (the slot vector grows twice)'),
+] + [
+    Harness('defs', 'h_defs_regcount', unwind=6, mem_gb=1, timeout=300, bounds='RARegCount get/set/add/reset/compare and RARegIndex::build_indexes: packed counters symbolic over 32 bits, group 0..3, n within the ASMJIT_ASSERT preconditions'),
+    Harness('defs', 'h_defs_regmask', unwind=6, mem_gb=1, timeout=300, bounds='RARegMask is_empty/has/compare/op<Or,And,AndNot>/clear/init/reset, RARegsStats make_*/has_*, RALiveCount op<Max>: all masks symbolic over 32 bits'),
+    Harness('defs', 'h_defs_tied', unwind=6, mem_gb=1, timeout=300, bounds='RATiedReg init and every flag predicate, make_read_only / make_write_only, done marks, packed ids, consecutive payload: flags, masks, ids symbolic over their full width'),
+    Harness('decide', 'h_decide_assignment', unwind=17, mem_gb=1, timeout=300, bounds='decide_on_assignment: allocable mask (non-zero), allocated mask, preserved mask symbolic over 32 bits; home register none or 0..31; group 0..3'),
+    Harness('decide', 'h_decide_reassignment', unwind=17, mem_gb=1, timeout=300, bounds='decide_on_reassignment: masks as above, clobber-survival mask and work register flags symbolic, instruction with 0 or 2 tied registers of the group (flags symbolic; none, first or second is the subject) after one of another group'),
+    Harness('decide', 'h_decide_spill', unwind=17, mem_gb=3, timeout=900, bounds='decide_on_spill_for on an arbitrary consistent 2 x 8 / 6 assignment (as K2), candidates = any non-empty subset of the occupied registers of the group; use frequencies fixed to {0.5, 0.25, 0.5, 1, 0.125, 0.25} (ties with the dirty penalty included): result in the set, victim reported, cheapest under calc_spill_cost, lowest id among equals'),
+    Harness('decide', 'h_decide_spill_anyfreq', unwind=17, mem_gb=3, timeout=900, bounds='as h_decide_spill with symbolic use frequencies k/16, k < 256: result in the set and victim reported (minimality not asserted: float products are beyond the solver here)'),
+    Harness('decide', 'h_decide_cost', unwind=17, mem_gb=1, timeout=300, bounds='calc_spill_cost for frequencies {0, 1/16, 1, 37.5} on an arbitrary consistent assignment: frequency * 2^20 + 2^18 if the register is dirty'),
+]
+
+EXPLANATION = (
+    'PARTIAL. The property (a compiled function behaves like its virtual-register program for every program and input, on x86, x86-64 and AArch64) is a '
+    'whole-program statement and is NOT decided: it cannot be encoded within reach of the tools in this sandbox (it would need symbolic execution of a pass that '
+    'allocates in hundreds of places and walks heap graphs of nodes/blocks/work registers, a liveness fixpoint, and an interpreter of x86 / AArch64 as the oracle). '
+    'What IS decided, by bounded symbolic execution (CBMC) of the real functions compiled from /repo, are four kernels the correctness argument of the pass rests on, '
+    'each as a one-step / whole-input-space proof: '
+    'K1 RALiveSpans::non_overlapping_union_of / intersects / open_at / close_at (radefs_p.h): bin_pack shares a physical register between two virtual registers only if '
+    'this function accepts, and it accepts iff no two live spans intersect (half-open [a, b)); the accepted union is exactly the sorted disjoint merge, so the argument '
+    'iterates over all registers packed into one physical register; arena failure is reported. '
+    'K2 RAAssignment (raassignment_p.h): from an arbitrary consistent state (work->phys and phys->work mutually inverse, assigned/dirty masks equal to the maps, dirty '
+    'subset of assigned) every operation assign / unassign / reassign / swap / make_clean / make_dirty / copy_from / reset / PhysToWorkMap::unassign + rebuild yields exactly the '
+    'consistent state of the updated partial injection (nothing else changes), with its ASMJIT_ASSERTs and debug verify() as obligations. '
+    'K3 RAStackAllocator (rastack.cpp): after calculate_stack_frame on up to 4 slots every spill home is aligned, homes are pairwise disjoint and inside [0, stack_size), '
+    'stack_size / alignment are consistent; adjust_slot_offsets shifts all homes alike; new_slot establishes the state calculate_stack_frame starts from. '
+    'K4 the pure helpers (RARegCount / RARegIndex / RARegMask / RARegsStats / RATiedReg predicates) and the local allocator\'s decision functions '
+    '(decide_on_assignment / decide_on_reassignment / decide_on_spill_for / calc_spill_cost / pick_best_suitable_register): every choice lies inside the mask it was given. '
+    'These are lemmas; their composition into the end-to-end claim is not checked by anything here.'
+)
+OUTSIDE = [
+    'THE PROPERTY ITSELF: meaning preservation of functions compiled by x86::Compiler / a64::Compiler (return value, memory effects, calls) for programs x inputs - not encodable with the tools available (no symbolic executor for the C++ heap graphs of a whole RA run plus an ISA interpreter as oracle); nothing here executes or interprets generated code',
+    'CFG construction and RW-info -> tied-register translation (x86rapass.cpp / a64rapass.cpp on_instruction, racfgbuilder_p.h), incl. same-register and partial-write rules',
+    'liveness fixpoint, kill/last marking, the positions fed to open_at/close_at (rapass.cpp build_liveness) - only the span primitives it calls are checked',
+    'bin_pack itself (order, hints, consecutive-register placement, preferred / clobber-survival masks) - only the acceptance test it relies on is checked',
+    'local allocation as a whole: alloc_instruction, spill_after_allocation, switch_to_assignment, alloc_branch, alloc_jump_table, make_initial_assignment, the emitted moves/swaps/loads/saves and their order - only the map operations (K2) and the decision functions (K4) they call are checked, one call at a time; that the allocator calls them with the right arguments is not',
+    'call and return lowering, argument shuffling, operand rewriting virtual -> physical / stack, prolog/epilog insertion (C06/C07 check the non-RA parts)',
+    'AArch64- and x86-specific RA code (nothing architecture-specific is reached by these harnesses)',
+    'K1: lists longer than 3 + 3 spans; lists violating the invariant (unsorted / overlapping within one list); K1 loose: only the soundness direction for lists with empty spans',
+    'K2: more than 6 (8) work registers, other register files than 2 x 8 and 16/32/8/8; sequences of operations (one step from an arbitrary consistent state is proved, which covers every reachable state of these sizes by induction); calls that violate an ASMJIT_ASSERT precondition or pass a group different from the work register\'s group',
+    'K3: more than 4 slots; sizes above 2^20 bytes; alignments above 128; the order in which slots are laid out (weights are checked, the order is not part of the claim)',
+    'K4: decide_on_spill_for minimality for arbitrary frequencies (fixed frequency table only); register files wider than 8 in decide_on_spill_for',
+]
+ASSUMPTIONS = [
+    'K1 environment: Arena::_alloc_reusable is a harness stand-in serving one request per run from a typed pool of 32 spans, reporting the size the real arena reports, failing nondeterministically; Arena::_release_dynamic is empty (the arena is checked by C18)',
+    'K1 representation invariant of a span list: a_i < b_i and b_i <= a_(i+1) (what open_at/close_at and the union itself produce); h_spans_open_close additionally assumes start < end and start >= start of the last span (build_liveness walks positions upwards)',
+    'K2 representation invariant: the state is the image of a partial injection work register -> (its group, physical register) plus a dirty flag per assigned register; states are generated from that model, so every consistent state of the stated sizes is covered and no inconsistent one',
+    'K2 preconditions beyond the ASMJIT_ASSERTs: the group argument is the work register\'s group and the physical id is below the group\'s register count (all callers pass work_reg->group() and ids taken from masks of existing registers); make_clean/make_dirty are called for the register the work register is in',
+    'K3 environment: Arena::_alloc_oneshot / _alloc_reusable are harness stand-ins handing out typed RAStackSlot objects / pointer arrays, failing nondeterministically in h_stack_new_slot; during calculate_stack_frame any request is an asserted error (the function never asks for memory - proved, see the check report)',
+    'K3 hand-built states: allocator alignment = max(1, slot alignments), slot alignment a power of two 1..128, size >= 1 - established by new_slot (h_stack_new_slot, h_stack_chain_*) from the values BaseCompiler::_new_stack / new_virt_reg produce',
+    'K4: RALocalAllocator / BaseRAPass objects are raw storage with only the fields the decision functions read set; home register ids are none or < 32',
+]
